@@ -153,6 +153,15 @@ def stage_effects(ctx):
         os.makedirs(outside, exist_ok=True)
         with open(os.path.join(outside, "sentinel.dat"), "wb") as f:
             f.write(b"do not touch")
+        # the host's temporary directory, as the daemon sees it, is a directory under observation (outside every node root):
+        # scratch files the daemon makes "somewhere in /tmp" are effects outside the roots like any other
+        import tempfile
+        systmp = os.path.join(e.tmp, "systmp")
+        os.makedirs(systmp, exist_ok=True)
+        saved_tmp = (tempfile.tempdir, os.environ.get("TMPDIR"))
+        tempfile.tempdir = systmp
+        os.environ["TMPDIR"] = systmp
+        ctx._c06_restore_tmp = saved_tmp
         for i in range(nh):
             def on_step(case, desc):
                 pass
@@ -162,7 +171,7 @@ def stage_effects(ctx):
             _MON["on"] = True
             try:
                 case, p7, p8, log = c07.run_history(ctx, e, rng, rng.randint(8, 28))
-                case.set_tools("rsync-only", "ok")
+                case.set_tools(rng.choice(["rsync-only", "none", "none", "both"]), "ok")
                 dharness.round_all(case)
             finally:
                 _MON["on"] = False
@@ -190,12 +199,93 @@ def stage_effects(ctx):
                 ctx.violation("outside-touched", "a file outside all node roots was created or modified", {"kind": "effects", "history": log})
             ctx.count("effects:fs-calls", nev)
             ctx.case(("effects", tuple(log)), nontrivial=nev > 0, sample={"fs_calls": [x for x in _MON["events"] if "/roots/" in x[1]][:12]} if i == 0 else None)
+            if os.listdir(systmp):
+                ctx.violation("outside-touched:tmp", f"the daemon left {os.listdir(systmp)[:3]} in the host's temporary directory",
+                              {"kind": "effects", "history": log})
+        tempfile.tempdir = saved_tmp[0]
+        if saved_tmp[1] is None:
+            os.environ.pop("TMPDIR", None)
+        else:
+            os.environ["TMPDIR"] = saved_tmp[1]
+
+
+def stage_effects_pull(ctx):
+    """the same judgement for every way a transfer can be carried out, enumerated: source class x tools installed (none ->
+    hard link or internal copy; rsync; rsync + bbcp) x file in a sub-directory or not, run by the real daemon under the monitor,
+    with the host's temporary directory under observation"""
+    import itertools
+    import os
+    import shutil
+    import tempfile
+    import env as envmod
+    import world as worldmod
+    import wharness
+    import dharness
+    _install_monitor()
+    with envmod.Env() as e:
+        systmp = os.path.join(e.tmp, "systmp")
+        os.makedirs(systmp, exist_ok=True)
+        saved_tmp = (tempfile.tempdir, os.environ.get("TMPDIR"))
+        tempfile.tempdir = systmp
+        os.environ["TMPDIR"] = systmp
+        try:
+            for stype, tools, fname in itertools.product(["A", "F"], ["none", "rsync-only", "both"], ["f.dat", "sub/dir/f.dat"]):
+                w = worldmod.World(e)
+                db = w.db
+                for m in (db.StorageTransferAction, db.ArchiveFileCopyRequest, db.ArchiveFileImportRequest, db.ArchiveFileCopy,
+                          db.ArchiveFile, db.ArchiveAcq, db.StorageNode, db.StorageGroup):
+                    m.delete().execute()
+                shutil.rmtree(os.path.join(e.tmp, "roots"), ignore_errors=True)
+                g1, g2 = w.group("g1"), w.group("g2")
+                src = w.node("src", g1, stype=stype)
+                dst = w.node("dst", g2, stype="A")
+                f = w.file(w.acq("acq"), fname, b"payload " * 50)
+                w.copy(f, src, has="Y")
+                w.req(f, src, g2)
+                os.environ["PATH"] = os.path.join(wharness.FAKE, tools)
+                _MON["events"].clear()
+                _MON["on"] = True
+                dharness.DAEMON_ACTIVE[0] = True
+                try:
+                    d = worldmod.Daemon(e, "h1")
+                    for _ in range(2):
+                        d.iterate()
+                        d.drain()
+                finally:
+                    dharness.DAEMON_ACTIVE[0] = False
+                    _MON["on"] = False
+                    os.environ["PATH"] = "/usr/local/bin:/usr/bin:/bin"
+                roots = [os.path.realpath(n.root) for n in db.StorageNode.select()]
+                done = bool(db.ArchiveFileCopyRequest.get().completed)
+                nev = 0
+                for ev, p in _MON["events"]:
+                    if e.tmp not in p or p.startswith(os.path.join(e.tmp, "index.db")) or p.endswith("toolctl.json"):
+                        continue
+                    nev += 1
+                    if not [r for r in roots if p.startswith(r + "/")]:
+                        ctx.violation("effect-outside:" + ev, f"daemon file-system call {ev} on {p}, which is not strictly inside any node "
+                                      f"root (transfer from a class-{stype} node, tools installed: {tools}, file {fname})",
+                                      {"kind": "effects-pull", "event": ev, "path": p, "tools": tools, "source_class": stype})
+                if os.listdir(systmp):
+                    ctx.violation("outside-touched:tmp", f"the transfer left {os.listdir(systmp)[:3]} in the host's temporary directory",
+                                  {"kind": "effects-pull", "tools": tools, "source_class": stype})
+                ctx.count(f"effects-pull:{stype}:{tools}:{'completed' if done else 'pending'}")
+                ctx.case(("effects-pull", stype, tools, fname), nontrivial=nev > 0,
+                         sample={"source class": stype, "tools": tools, "fs_calls": [x for x in _MON["events"] if e.tmp in x[1]][:10]}
+                         if (stype, tools, fname) == ("F", "none", "sub/dir/f.dat") else None)
+        finally:
+            tempfile.tempdir = saved_tmp[0]
+            if saved_tmp[1] is None:
+                os.environ.pop("TMPDIR", None)
+            else:
+                os.environ["TMPDIR"] = saved_tmp[1]
 
 
 def run(ctx):
     ok = common.proof_stage(ctx, MODULE)
     div_iip, div_norm = run_strings(ctx)
     stage_effects(ctx)
+    stage_effects_pull(ctx)
     # the names a recursive import (scan) request stores, for canonical, dotted and escaping spellings of the directory
     import env as envmod
     from props import c04
@@ -229,5 +319,5 @@ def replay(ctx, path):
         bad = oracle_accept_ok(s) if res is None else None
         print(f"invalid_import_path({s!r}) = {res!r}; oracle: {bad}")
         return 1 if bad else 0
-    print(json.dumps(r, indent=1)[:3000])
-    return 1
+    import sys
+    return common.replay_by_rerun(ctx, path, sys.modules[__name__])
